@@ -14,15 +14,21 @@ sub = 'seeded'
 rest = sys.argv[2:]
 own = False
 outname = 'MATRIX.json'
+only = None
 while rest and rest[0].startswith('--'):
     if rest[0].startswith('--dir='):
         sub = rest[0][6:]
+    elif rest[0].startswith('--checks='):      # only these checks (columns)
+        only = rest[0][9:].split(',')
     elif rest[0] == '--own':        # only the check of the seeded change's own property
         own = True
         outname = 'OWN.json'
     rest = rest[1:]
 seeds = rest or sorted(d for d in os.listdir(os.path.join(HERE, sub)) if os.path.isfile(os.path.join(HERE, sub, d, 'patch.diff')))
 checks = ['C%02d' % i for i in range(1, 21)]
+if only:
+    checks = only
+    outname = 'MATRIX-%s.json' % '-'.join(only)
 tmp = tempfile.mkdtemp(prefix='matrix-')
 env = dict(os.environ, VERIF_REPO=repo, VERIF_EVIDENCE_DIR=os.path.join(tmp, 'evidence'), VERIF_REPLAY_DIR=os.path.join(tmp, 'replays'))
 out = {}
